@@ -44,20 +44,14 @@ impl Vm {
         let mut lambda = Lambda::new_from_iof(vec![], vec![], &entry_lambda, &[], false);
         lambda.set_top_level();
         lambda.emit(OpCode::Enter);
-        match expr {
-            // A begin at the outermost level splices its forms into the top level (R7RS 5.1):
-            // a definition inside it defines a global.
-            Cell::Pair(car, cdr)
-                if car.is_symbol_str("begin") && cdr.is_pair() && cdr.is_list() =>
-            {
-                let mut rest = &**cdr;
-                while rest.is_pair() {
-                    let next = rest.cdr().unwrap();
-                    self.compile(&mut lambda, next.is_nil(), rest.car().unwrap())?;
-                    rest = next;
-                }
-            }
-            _ => self.compile(&mut lambda, true, expr)?,
+        // A begin at the outermost level splices its forms into the top level (R7RS 5.1):
+        // a definition inside it defines a global.
+        let forms = self.splice_body(&Cell::new_list(vec![expr.clone()]))?;
+        if forms.is_empty() {
+            self.compile(&mut lambda, true, expr)?;
+        }
+        for (idx, form) in forms.iter().enumerate() {
+            self.compile(&mut lambda, idx + 1 == forms.len(), form)?;
         }
         lambda.emit(OpCode::Ret);
         trace!("main: \n{}", self.decompile_text(&lambda));
@@ -98,6 +92,52 @@ impl Vm {
         }
     }
 
+    /// Macro Of
+    ///
+    /// The transformer proc is globally bound to, if it is a symbol bound to a macro.
+    fn macro_of(&mut self, proc: &Cell) -> Result<Option<Rc<Transform>>, Error> {
+        if let Some(sym) = self.heap.get_sym_ref(proc) {
+            let vcell = match self.globenv.get(sym.as_ptr()?) {
+                Some(VCell::Ptr(ptr)) => Some(self.heap.get_at_index(ptr).clone()),
+                vcell => vcell,
+            };
+            if let Some(VCell::Macro(transform)) = vcell {
+                return Ok(Some(transform));
+            }
+        }
+        Ok(None)
+    }
+
+    /// Splice Body
+    ///
+    /// The forms of a body (of a lambda, of a define of a procedure, or the top level)
+    /// with every begin among them replaced by its own forms, so that the definitions
+    /// inside it belong to the body (R7RS 4.2.3, 5.3.2). A macro use in body position is
+    /// expanded far enough to see whether it is a begin: that is how a macro emits
+    /// several definitions.
+    fn splice_body(&mut self, body: &Cell) -> Result<Vec<Cell>, Error> {
+        let mut pending: Vec<Cell> = body.iter().cloned().collect();
+        pending.reverse();
+        let mut forms = vec![];
+        while let Some(mut form) = pending.pop() {
+            while let Some(proc) = form.car() {
+                match self.macro_of(proc)? {
+                    Some(transform) if !proc.is_symbol_str("begin") => {
+                        form = transform.transform(&form)?;
+                    }
+                    _ => break,
+                }
+            }
+            match &form {
+                Cell::Pair(car, cdr) if car.is_symbol_str("begin") && cdr.is_list() => {
+                    pending.extend(cdr.iter().cloned().collect::<Vec<_>>().into_iter().rev());
+                }
+                _ => forms.push(form),
+            }
+        }
+        Ok(forms)
+    }
+
     pub fn transform_procedure_application(&mut self, expr: &Cell) -> Result<Cell, Error> {
         let proc = expr.car().unwrap();
         let mut rest = expr.cdr().unwrap();
@@ -119,19 +159,26 @@ impl Vm {
             };
         }
 
-        if let Some(sym) = self.heap.get_sym_ref(proc) {
-            let vcell = match self.globenv.get(sym.as_ptr()?) {
-                Some(VCell::Ptr(ptr)) => Some(self.heap.get_at_index(ptr).clone()),
-                vcell => vcell,
-            };
-            if let Some(VCell::Macro(transform)) = vcell {
-                let expansion = transform.transform(expr)?;
-                trace!("macro expansion: {} => {}", expr, expansion);
-                return self.transform(&expansion);
-            }
+        if let Some(transform) = self.macro_of(proc)? {
+            let expansion = transform.transform(expr)?;
+            trace!("macro expansion: {} => {}", expr, expansion);
+            return self.transform(&expansion);
         }
 
         let mut v = vec![self.transform(proc)?];
+
+        // (lambda formals body ...) and (define (name . formals) body ...) have a body
+        let has_body = proc.is_symbol_str("lambda")
+            || proc.is_symbol_str("λ")
+            || (proc.is_symbol_str("define") && rest.car().is_some_and(|head| head.is_pair()));
+        if has_body && rest.is_list() {
+            v.push(self.transform(rest.car().unwrap())?);
+            for form in self.splice_body(rest.cdr().unwrap())? {
+                v.push(self.transform(&form)?);
+            }
+            return Ok(Cell::new_list(v));
+        }
+
         while rest.is_pair() {
             v.push(self.transform(rest.car().unwrap())?);
             rest = rest.cdr().unwrap();
